@@ -1567,6 +1567,12 @@ where
         }
     }
 
+    /// verification hook (add-only): exposes the private comparator `compare_values`
+    #[cfg(kahflane_turdb_verif)]
+    pub fn verif_compare_values(a: &Value, b: &Value) -> std::cmp::Ordering {
+        Self::compare_values(a, b)
+    }
+
     fn compare_values(a: &Value, b: &Value) -> std::cmp::Ordering {
         use std::cmp::Ordering;
         match (a, b) {
